@@ -736,6 +736,22 @@ func c10FirstAttempt(c *Check) {
 				fv := fieldOf(info, l)
 				return fv != nil && bufT(fv.Type()) && rhs != nil && stored != nil && objOf(info, rhs) == stored
 			})
+			// … and nothing but the stored body: the caller's buffer is the caller's – the SMTP endpoint removes it right
+			// after Commit, and a buffer whose storage is recycled is rewritten by the next message while the first attempt
+			// (which runs later, on the queue's own goroutine) still reads it
+			foreign := r.Assigns(func(l, rhs ast.Expr) bool {
+				fv := fieldOf(info, l)
+				if fv == nil || !bufT(fv.Type()) || rhs == nil || isNilIdent(info, rhs) {
+					return false
+				}
+				return stored == nil || objOf(info, rhs) != stored
+			})
+			c.Hold("R3f", "queueDelivery.Body:body-is-the-stored-one", r.FI.Decl.Pos(), len(foreign) == 0, "Body keeps a buffer other than the one storeNewMessage returned for the first attempt (line "+func() string {
+				if len(foreign) > 0 && foreign[0].Node() != nil {
+					return itoa(p0(c.P, foreign[0].Node().Pos()))
+				}
+				return "?"
+			}()+"): the caller's buffer is removed by the caller after Commit (the endpoint calls Remove; a recycled in-memory buffer is overwritten by the next message) while the first attempt runs later – its recipients can receive another message's body; retries read the spool and are right")
 			if stored == nil {
 				msg = "the stored body returned by storeNewMessage is dropped"
 			} else if len(keepsHdr) == 0 || len(keepsBody) == 0 {
